@@ -526,17 +526,19 @@ Tableau<W> Tableau<W>::raised_to(int64_t exponent) const {
     if (exponent) {
         Tableau<W> square = *this;
 
+        // The magnitude as an unsigned value: negating INT64_MIN as an int64_t overflows (and the loop below never ended).
+        uint64_t magnitude = (uint64_t)exponent;
         if (exponent < 0) {
             square = square.inverse();
-            exponent *= -1;
+            magnitude = 0 - magnitude;
         }
 
         while (true) {
-            if (exponent & 1) {
+            if (magnitude & 1) {
                 result = result.then(square);
             }
-            exponent >>= 1;
-            if (exponent == 0) {
+            magnitude >>= 1;
+            if (magnitude == 0) {
                 break;
             }
             square = square.then(square);
